@@ -2,7 +2,7 @@
 lab_of() {
   case "$1" in
     C01|C02|C03|C11|C14|C15) echo lab_session ;;
-    C16|C14x) echo lab_inject ;;
+    C16|C14x|C01x|C03x|C15x) echo lab_inject ;;
     C11c) echo lab_shardmgr ;;
     C04) echo lab_chunker ;;
     C06) echo lab_hash ;;
